@@ -7,6 +7,11 @@ ALL = ["C%02d" % i for i in range(1, 21)]
 
 # property -> (category, technique, text, note, design_ref)
 CHECKS = {
+ "C05": ("exploration",
+   "bounded exhaustive enumeration of all (prediction, truth) vectors over small alphabets against definitions recomputed from first principles",
+   "Every pair of label vectors (bool n<=6/8; usize and String n<=4/6 over up to 4 symbols, label sets differing between the sides), every score vector over {0,.25,.5,.75,1} (plus clip-boundary values) against every truth vector with both classes, every pair of real vectors over a 6-value alphabet with non-constant truth (f32 and f64, 1 and 2 target columns), every labelled 1-D / 3x3-lattice point set for the silhouette and every small matrix for Pearson; each case re-run under permutations of both sides and through every calling form. Oracles are the documented cell formulas / textbook definitions in plain f64 (Mann-Whitney for AUC, clipped NLL for log-loss).",
+   "Follows the cell layout the rustdoc and test_confusion_matrix document (predictions on rows). Scores closer than the implementation's 1e-10 tie tolerance are outside the alphabets; Pearson p-values (unseeded) are not part of the statement.",
+   "DESIGN.md 4/C05"),
  "C02": ("model_checking",
    "explicit-state breadth-first exploration of dataset operation histories, real DatasetBase API stepped in lock-step with a Vec<TaggedRow> reference model",
    "States are identity-tagged datasets (record tag, target tag, weight, names, layout flag); every action of the listed alphabet (ratio splits of owned data and views for 6 ratios, shuffle, the three bootstraps, with_labels for every label subset, one_vs_all, map_targets, to_owned, view, into_single_target, chunking, the three iterators, fold) is applied through the real API to the owned value and to its view, every returned dataset is observed through the public accessors and compared with the same operation on the reference rows; successors are canonicalised and de-duplicated; random choices (shuffle permutations, bootstrap index vectors) are enumerated through a scripted RNG. Depth 2 (quick) / 3-4 (thorough) from 132/148 seed datasets, all histories - so non-initial states are covered.",
